@@ -9,6 +9,16 @@ ROOT = pathlib.Path(__file__).resolve().parent.parent
 
 # id -> (technique, level text, level_note, design_ref)
 CHECKS = {
+    "C20": (
+        "output monitor: parser for the emitted DOT subset; count / nesting / endpoint / label oracle against the HUGR's public queries; snapshot before/after; structural identity across render configurations",
+        "800 (quick) / 25000 (thorough) HUGRs from builder programs (plus metadata, extra order links and mutation histories) are rendered under "
+        "2-6 of the 6 (palette x qualify_op_name) configurations; the DOT text is parsed and must contain exactly one node statement per node "
+        "with the op's display name and one cell per input/output port, one cluster per parent nested as the hierarchy, one edge statement per "
+        "link with the right endpoints, value edges labelled str(type); the HUGR must be unchanged and the structure config-independent.",
+        "Trusted: the DOT subset parser (self-tested), display names taken from op.name()/op_def().name as the renderer documents. No layout "
+        "(no dot binary). One open known finding on qualified names.",
+        "DESIGN.md §3 C20",
+    ),
     "C13": (
         "fault injection: exactly one catalogued inconsistency is injected into a well-formed generated builder program at a chosen site and depth; oracle = the documented exception class at the faulty call (or at context exit / serialization)",
         "3000 (quick) / 100000 (thorough) injected programs over 23 inconsistency kinds (foreign wires in plain and block builders, static ports "
